@@ -12,4 +12,39 @@ META = {
         "level_text": "Exploration: rapid-generated histories (small structured key universe, re-drawn configuration at every reopen, MemDB/seam/PrefixDB/GoLevelDB) are applied to the real tree and to a versioned-map model; after every step every read of the working state and of every retained version is compared. Thousands of distinct non-trivial histories per quick run, ~600k per thorough run; failures shrink to a JSON history that replays without rapid.",
         "level_note": _TB + "Regions steered around while a known finding is open are counted in the evidence (excluded_by_<id>).",
     },
+    "C02": {
+        "technique": "model-based stateful property testing: differential against an independent reference IAVL+ implementation, metamorphic read interleaving",
+        "level_text": "Exploration: every hash the library reports (WorkingHash at drawn points, SaveVersion hash+version, Hash, hash of every retained version after every step, after reopen, prune, rollback-and-redo, export/import hop) is compared with an independent purely-functional implementation of the documented IAVL+ rules. Read-only calls are applied to the real tree only, so any influence of a read on a later hash shows at the next commit. The per-step observer deliberately does not call WorkingHash (it would memoise hashes and mask a poisoning read).",
+        "level_note": _TB + "Open finding F1 (hash poisoned by a proof query on the working tree while InitialVersion is pending) is steered around and counted.",
+    },
+    "C03": {
+        "technique": "property-based testing: two-sided oracle (completeness + binding) with the ics23 verifier against reference roots",
+        "level_text": "Exploration: for every retained non-empty version and the working tree and every probe key (present; absent below/above/between/prefix/extension) the proof of the right kind must exist, carry the model's value / the model's neighbours and verify with ics23.IavlSpec against the REFERENCE root; it must fail for another value, another key, the opposite claim and the reference root of any other retained version where the claim is false; wrong-kind requests must error.",
+        "level_note": _TB + "Also trusted: ics23/go v0.11.0 verifier. Keys whose stored value is empty cannot be verified by ics23 by construction (LeafOp.Apply rejects empty values) and are counted, not checked. Working-tree proofs with a pending non-default InitialVersion are excluded while F1 is open.",
+    },
+    "C04": {
+        "technique": "model-based stateful property testing with a pruning-biased generator; re-check through a fresh handle",
+        "level_text": "Exploration: histories biased to commits without writes, empty and one-leaf versions, rollbacks, cold caches and flush thresholds that split one deletion over several physical batches. After every DeleteVersionsTo every later version is re-checked completely (contents, hash, proofs against reference roots) through the live handle and through a fresh handle; deleted versions must be unavailable; refused requests (latest, open exporter) must error and leave the store byte-identical.",
+        "level_note": _TB + "DeleteVersionsTo(n) is generated only with n below the version the live handle is based on (documented precondition: a version in use is not deleted).",
+    },
+    "C07": {
+        "technique": "differential property testing of two read paths (fast index vs tree walk) plus independent raw-index audit",
+        "level_text": "Exploration: every (re)open re-draws fast index on/off and the version to load; after every step Get/GetWithIndex, Iterator/IterateRange, GetVersioned/GetImmutable.GetWithIndex are compared with each other and with the model, and whenever the live handle has the index enabled the raw f-entries (decoded by an independent decoder) must equal the model's latest map exactly with label 1.1.0-<latest>.",
+        "level_note": _TB + "Open finding F3 (rollback with the index disabled defeats the label) is steered around and counted.",
+    },
+    "C12": {
+        "technique": "model-based stateful property testing with a raw-storage reachability audit by an independent decoder",
+        "level_text": "Exploration: after every step of crash-free histories the raw node entries are compared with the set reachable from the root markers of the model's retained versions (nothing missing, nothing unreachable, no root key of a deleted version), the fast index with the latest map; each case ends by removing every key and pruning: only the empty root marker may remain.",
+        "level_note": _TB + "The decoder in /verif/harness/codec.go is written from the documented layout, not from node.go.",
+    },
+    "C13": {
+        "technique": "property-based testing: independent decoder/encoder round trips of the on-disk format; coverage-guided fuzzing of decoders",
+        "level_text": "Exploration: (a) after every step the independent decoder must reproduce exactly the reference tree from the raw store (all fields, child links, root markers, numeric key order); (b) databases written by an independent encoder with its own nonce numbering must be opened, read, extended and pruned by the library with reference hashes; (c) decoders are fed mutated valid encodings and fuzzed byte strings: error-or-value, never panic, bounded allocation.",
+        "level_note": _TB + "Format knowledge is the pinned layout documented in docs/ and restated in codec.go.",
+    },
+    "C14": {
+        "technique": "model-based stateful property testing of the version range API, incl. fresh-handle rediscovery",
+        "level_text": "Exploration: after every step every version number in {0,1} U [first-ever-1, latest+1] is queried through VersionExists, GetImmutable, GetVersioned and LoadVersion on a throw-away handle, plus AvailableVersions/GetLatestVersion, on the live handle and (after prune/rollback) on a fresh handle; re-commit of an existing number must be idempotent iff the hashes agree, else fail with a byte-identical store.",
+        "level_note": _TB + "Open finding F17 (explicit InitialVersionOption(0): version 0 is committed but never visible) is excluded from generation and shown by the replay tier.",
+    },
 }
